@@ -148,10 +148,69 @@ var optAlias = map[string]string{
 // IsBuiltinTarget reports whether name is a verdict or extension target (as opposed to a user chain).
 func IsBuiltinTarget(name string) bool { _, ok := targetOpts[name]; return ok }
 
-// syntaxErr is a malformed command line (exit status 2).
+// syntaxErr is a malformed command line (exit status 2): something the kernel model does not understand.
 type syntaxErr struct{ msg string }
 
 func (e *syntaxErr) Error() string { return e.msg }
+
+// valueErr is a well-formed option whose VALUE the real tool refuses (exit status 2): an address that is not
+// IPv4, a port that is neither a number nor a range (service names are not resolved: a NetworkPolicy port name
+// is a container port name, not an /etc/services entry), more than 15 ports in a multiport list, a comment of
+// 256 characters or more.
+type valueErr struct{ msg string }
+
+func (e *valueErr) Error() string { return e.msg }
+
+func checkPort(s string) error {
+	n, err := strconv.Atoi(s)
+	if err != nil || n < 0 || n > 65535 {
+		return &valueErr{fmt.Sprintf("invalid port/service `%s' specified", s)}
+	}
+	return nil
+}
+
+// checkPorts validates a port, a range a:b or (multi) a comma list of those with at most 15 slots.
+func checkPorts(list string, multi bool) error {
+	parts := []string{list}
+	if multi {
+		parts = strings.Split(list, ",")
+	}
+	slots := 0
+	for _, p := range parts {
+		lo, hi := p, ""
+		if i := strings.IndexByte(p, ':'); i >= 0 {
+			lo, hi = p[:i], p[i+1:]
+			slots++
+		}
+		slots++
+		if lo != "" || hi == "" {
+			if err := checkPort(lo); err != nil {
+				return err
+			}
+		}
+		if hi != "" {
+			if err := checkPort(hi); err != nil {
+				return err
+			}
+		}
+	}
+	if multi && slots > 15 {
+		return &valueErr{"too many ports specified"}
+	}
+	return nil
+}
+
+func checkOptValue(mod, name string, args []string) error {
+	switch {
+	case mod == "multiport":
+		return checkPorts(args[0], true)
+	case (mod == "tcp" || mod == "udp") && (name == "--dport" || name == "--sport"):
+		return checkPorts(args[0], false)
+	case mod == "comment" && len(args[0]) > 255:
+		return &valueErr{"comment too long"}
+	}
+	return nil
+}
 
 // setRef is the name of a set a rule refers to; its existence is checked by the caller at parse time, as
 // the real set match does.
@@ -219,7 +278,7 @@ func parseRule(toks []string) (*Rule, error) {
 			}
 			ip, bits, ok := ParsePrefix(v)
 			if !ok {
-				return nil, &syntaxErr{fmt.Sprintf("host/network `%s' not found", v)}
+				return nil, &valueErr{fmt.Sprintf("host/network `%s' not found", v)}
 			}
 			a := &Addr{Neg: n, IP: ip, Bits: bits}
 			if t == "-s" || t == "--source" || t == "--src" {
@@ -343,7 +402,13 @@ func (r *Rule) extensionOpt(name string, neg bool, i *int, toks []string) error 
 			if err != nil {
 				return err
 			}
-			r.Matches[k].Opts = append(r.Matches[k].Opts, Opt{Neg: ng, Name: name, Args: canonArgs(r.Matches[k].Mod, name, args)})
+			args = canonArgs(r.Matches[k].Mod, name, args)
+			if len(args) > 0 {
+				if err := checkOptValue(r.Matches[k].Mod, name, args); err != nil {
+					return err
+				}
+			}
+			r.Matches[k].Opts = append(r.Matches[k].Opts, Opt{Neg: ng, Name: name, Args: args})
 			return nil
 		}
 	}
@@ -352,6 +417,11 @@ func (r *Rule) extensionOpt(name string, neg bool, i *int, toks []string) error 
 			args, ng, err := take(n)
 			if err != nil {
 				return err
+			}
+			if len(args) > 0 {
+				if err := checkOptValue(r.Proto.V, name, args); err != nil {
+					return err
+				}
 			}
 			r.Matches = append(r.Matches, Match{Mod: r.Proto.V, Opts: []Opt{{Neg: ng, Name: name, Args: args}}})
 			return nil
